@@ -388,6 +388,9 @@ class Dimension:
         cls, dimension: "Dimension", name: str, symbol: Optional[str] = None
     ) -> "Dimension":
         """Registers a new named dimension derived from other dimension"""
+        if name in cls._by_name and cls._by_name[name] is not dimension:
+            raise ValueError(f"A dimension named {name} is already defined")
+
         dimension.name = name
         dimension.symbol = symbol or str(dimension)
         cls._by_name[name] = dimension
@@ -650,6 +653,12 @@ class Prefix:
             return IdentityPrefix
 
         key = (base, exponent)
+        existing = cls._known.get(key)
+        if name and cls._by_name.get(name, existing) is not existing:
+            raise ValueError(f"A prefix named {name} is already defined")
+        if symbol and cls._by_symbol.get(symbol, existing) is not existing:
+            raise ValueError(f"A prefix with symbol {symbol} is already defined")
+
         if key in cls._known:
             return cls._known[key]
 
